@@ -880,6 +880,29 @@ pub fn layout(r: &Recipe) -> Program {
     Program { lines }
 }
 
+/// Programs without any DEF statement (user-function names then read as arrays).
+pub fn program_without_defs(cfg: GenCfg) -> BoxedStrategy<Program> {
+    recipe(cfg)
+        .prop_map(|mut r| {
+            fn strip(bs: &mut Vec<Block>) {
+                bs.retain(|b| !matches!(b, Block::Def(..)));
+                for b in bs.iter_mut() {
+                    match b {
+                        Block::For { body, .. } | Block::CountLoop { body, .. } => strip(body),
+                        _ => {}
+                    }
+                }
+            }
+            r.defs.clear();
+            strip(&mut r.main);
+            for s in r.subs.iter_mut() {
+                strip(s);
+            }
+            layout(&r)
+        })
+        .boxed()
+}
+
 pub fn program(cfg: GenCfg) -> BoxedStrategy<Program> {
     recipe(cfg).prop_map(|r| layout(&r)).boxed()
 }
